@@ -16,6 +16,18 @@ let rec app l m =
   | [] -> m
   | a :: l1 -> a :: (app l1 m)
 
+type comparison =
+| Eq
+| Lt
+| Gt
+
+(** val compOpp : comparison -> comparison **)
+
+let compOpp = function
+| Eq -> Eq
+| Lt -> Gt
+| Gt -> Lt
+
 module Coq__1 = struct
  (** val add : nat -> nat -> nat **)
  let rec add n0 m =
@@ -25,58 +37,28 @@ module Coq__1 = struct
 end
 include Coq__1
 
-(** val sub : nat -> nat -> nat **)
+(** val nth : nat -> 'a1 list -> 'a1 -> 'a1 **)
 
-let rec sub n0 m =
+let rec nth n0 l default =
   match n0 with
-  | O -> n0
-  | S k -> (match m with
-            | O -> n0
-            | S l -> sub k l)
+  | O -> (match l with
+          | [] -> default
+          | x :: _ -> x)
+  | S m -> (match l with
+            | [] -> default
+            | _ :: t -> nth m t default)
 
-module Nat =
- struct
-  (** val leb : nat -> nat -> bool **)
+(** val rev : 'a1 list -> 'a1 list **)
 
-  let rec leb n0 m =
-    match n0 with
-    | O -> true
-    | S n' -> (match m with
-               | O -> false
-               | S m' -> leb n' m')
+let rec rev = function
+| [] -> []
+| x :: l' -> app (rev l') (x :: [])
 
-  (** val ltb : nat -> nat -> bool **)
+(** val map : ('a1 -> 'a2) -> 'a1 list -> 'a2 list **)
 
-  let ltb n0 m =
-    leb (S n0) m
-
-  (** val max : nat -> nat -> nat **)
-
-  let rec max n0 m =
-    match n0 with
-    | O -> m
-    | S n' -> (match m with
-               | O -> n0
-               | S m' -> S (max n' m'))
-
-  (** val min : nat -> nat -> nat **)
-
-  let rec min n0 m =
-    match n0 with
-    | O -> O
-    | S n' -> (match m with
-               | O -> O
-               | S m' -> S (min n' m'))
- end
-
-(** val firstn : nat -> 'a1 list -> 'a1 list **)
-
-let rec firstn n0 l =
-  match n0 with
-  | O -> []
-  | S n1 -> (match l with
-             | [] -> []
-             | a :: l0 -> a :: (firstn n1 l0))
+let rec map f = function
+| [] -> []
+| a :: t -> (f a) :: (map f t)
 
 (** val skipn : nat -> 'a1 list -> 'a1 list **)
 
@@ -86,6 +68,12 @@ let rec skipn n0 l =
   | S n1 -> (match l with
              | [] -> []
              | _ :: l0 -> skipn n1 l0)
+
+(** val seq : nat -> nat -> nat list **)
+
+let rec seq start = function
+| O -> []
+| S len0 -> start :: (seq (S start) len0)
 
 (** val repeat : 'a1 -> nat -> 'a1 list **)
 
@@ -155,6 +143,20 @@ module Pos =
        | XO q -> XO (succ q)
        | XH -> XI XH)
 
+  (** val pred_double : positive -> positive **)
+
+  let rec pred_double = function
+  | XI p -> XI (XO p)
+  | XO p -> XI (pred_double p)
+  | XH -> XH
+
+  (** val pred_N : positive -> n **)
+
+  let pred_N = function
+  | XI p -> Npos (XO p)
+  | XO p -> Npos (pred_double p)
+  | XH -> N0
+
   (** val mul : positive -> positive -> positive **)
 
   let rec mul x y =
@@ -162,6 +164,50 @@ module Pos =
     | XI p -> add y (XO (mul p y))
     | XO p -> XO (mul p y)
     | XH -> y
+
+  (** val iter : ('a1 -> 'a1) -> 'a1 -> positive -> 'a1 **)
+
+  let rec iter f x = function
+  | XI n' -> f (iter f (iter f x n') n')
+  | XO n' -> iter f (iter f x n') n'
+  | XH -> f x
+
+  (** val div2 : positive -> positive **)
+
+  let div2 = function
+  | XI p0 -> p0
+  | XO p0 -> p0
+  | XH -> XH
+
+  (** val div2_up : positive -> positive **)
+
+  let div2_up = function
+  | XI p0 -> succ p0
+  | XO p0 -> p0
+  | XH -> XH
+
+  (** val compare_cont : comparison -> positive -> positive -> comparison **)
+
+  let rec compare_cont r x y =
+    match x with
+    | XI p ->
+      (match y with
+       | XI q -> compare_cont r p q
+       | XO q -> compare_cont Gt p q
+       | XH -> Gt)
+    | XO p ->
+      (match y with
+       | XI q -> compare_cont Lt p q
+       | XO q -> compare_cont r p q
+       | XH -> Gt)
+    | XH -> (match y with
+             | XH -> r
+             | _ -> Lt)
+
+  (** val compare : positive -> positive -> comparison **)
+
+  let compare =
+    compare_cont Eq
 
   (** val eqb : positive -> positive -> bool **)
 
@@ -176,6 +222,72 @@ module Pos =
     | XH -> (match q with
              | XH -> true
              | _ -> false)
+
+  (** val coq_Nsucc_double : n -> n **)
+
+  let coq_Nsucc_double = function
+  | N0 -> Npos XH
+  | Npos p -> Npos (XI p)
+
+  (** val coq_Ndouble : n -> n **)
+
+  let coq_Ndouble = function
+  | N0 -> N0
+  | Npos p -> Npos (XO p)
+
+  (** val coq_lor : positive -> positive -> positive **)
+
+  let rec coq_lor p q =
+    match p with
+    | XI p0 ->
+      (match q with
+       | XI q0 -> XI (coq_lor p0 q0)
+       | XO q0 -> XI (coq_lor p0 q0)
+       | XH -> p)
+    | XO p0 ->
+      (match q with
+       | XI q0 -> XI (coq_lor p0 q0)
+       | XO q0 -> XO (coq_lor p0 q0)
+       | XH -> XI p0)
+    | XH -> (match q with
+             | XO q0 -> XI q0
+             | _ -> q)
+
+  (** val coq_land : positive -> positive -> n **)
+
+  let rec coq_land p q =
+    match p with
+    | XI p0 ->
+      (match q with
+       | XI q0 -> coq_Nsucc_double (coq_land p0 q0)
+       | XO q0 -> coq_Ndouble (coq_land p0 q0)
+       | XH -> Npos XH)
+    | XO p0 ->
+      (match q with
+       | XI q0 -> coq_Ndouble (coq_land p0 q0)
+       | XO q0 -> coq_Ndouble (coq_land p0 q0)
+       | XH -> N0)
+    | XH -> (match q with
+             | XO _ -> N0
+             | _ -> Npos XH)
+
+  (** val ldiff : positive -> positive -> n **)
+
+  let rec ldiff p q =
+    match p with
+    | XI p0 ->
+      (match q with
+       | XI q0 -> coq_Ndouble (ldiff p0 q0)
+       | XO q0 -> coq_Nsucc_double (ldiff p0 q0)
+       | XH -> Npos (XO p0))
+    | XO p0 ->
+      (match q with
+       | XI q0 -> coq_Ndouble (ldiff p0 q0)
+       | XO q0 -> coq_Ndouble (ldiff p0 q0)
+       | XH -> Npos p)
+    | XH -> (match q with
+             | XO _ -> Npos XH
+             | _ -> N0)
 
   (** val iter_op : ('a1 -> 'a1 -> 'a1) -> positive -> 'a1 -> 'a1 **)
 
@@ -199,6 +311,12 @@ module Pos =
 
 module N =
  struct
+  (** val succ_pos : n -> positive **)
+
+  let succ_pos = function
+  | N0 -> XH
+  | Npos p -> Pos.succ p
+
   (** val add : n -> n -> n **)
 
   let add n0 m =
@@ -217,6 +335,24 @@ module N =
                  | N0 -> N0
                  | Npos q -> Npos (Pos.mul p q))
 
+  (** val coq_lor : n -> n -> n **)
+
+  let coq_lor n0 m =
+    match n0 with
+    | N0 -> m
+    | Npos p -> (match m with
+                 | N0 -> n0
+                 | Npos q -> Npos (Pos.coq_lor p q))
+
+  (** val ldiff : n -> n -> n **)
+
+  let ldiff n0 m =
+    match n0 with
+    | N0 -> N0
+    | Npos p -> (match m with
+                 | N0 -> n0
+                 | Npos q -> Pos.ldiff p q)
+
   (** val to_nat : n -> nat **)
 
   let to_nat = function
@@ -232,12 +368,146 @@ module N =
 
 module Z =
  struct
+  (** val double : z -> z **)
+
+  let double = function
+  | Z0 -> Z0
+  | Zpos p -> Zpos (XO p)
+  | Zneg p -> Zneg (XO p)
+
+  (** val succ_double : z -> z **)
+
+  let succ_double = function
+  | Z0 -> Zpos XH
+  | Zpos p -> Zpos (XI p)
+  | Zneg p -> Zneg (Pos.pred_double p)
+
+  (** val pred_double : z -> z **)
+
+  let pred_double = function
+  | Z0 -> Zneg XH
+  | Zpos p -> Zpos (Pos.pred_double p)
+  | Zneg p -> Zneg (XI p)
+
+  (** val pos_sub : positive -> positive -> z **)
+
+  let rec pos_sub x y =
+    match x with
+    | XI p ->
+      (match y with
+       | XI q -> double (pos_sub p q)
+       | XO q -> succ_double (pos_sub p q)
+       | XH -> Zpos (XO p))
+    | XO p ->
+      (match y with
+       | XI q -> pred_double (pos_sub p q)
+       | XO q -> double (pos_sub p q)
+       | XH -> Zpos (Pos.pred_double p))
+    | XH ->
+      (match y with
+       | XI q -> Zneg (XO q)
+       | XO q -> Zneg (Pos.pred_double q)
+       | XH -> Z0)
+
+  (** val add : z -> z -> z **)
+
+  let add x y =
+    match x with
+    | Z0 -> y
+    | Zpos x' ->
+      (match y with
+       | Z0 -> x
+       | Zpos y' -> Zpos (Pos.add x' y')
+       | Zneg y' -> pos_sub x' y')
+    | Zneg x' ->
+      (match y with
+       | Z0 -> x
+       | Zpos y' -> pos_sub y' x'
+       | Zneg y' -> Zneg (Pos.add x' y'))
+
   (** val opp : z -> z **)
 
   let opp = function
   | Z0 -> Z0
   | Zpos x0 -> Zneg x0
   | Zneg x0 -> Zpos x0
+
+  (** val sub : z -> z -> z **)
+
+  let sub m n0 =
+    add m (opp n0)
+
+  (** val mul : z -> z -> z **)
+
+  let mul x y =
+    match x with
+    | Z0 -> Z0
+    | Zpos x' ->
+      (match y with
+       | Z0 -> Z0
+       | Zpos y' -> Zpos (Pos.mul x' y')
+       | Zneg y' -> Zneg (Pos.mul x' y'))
+    | Zneg x' ->
+      (match y with
+       | Z0 -> Z0
+       | Zpos y' -> Zneg (Pos.mul x' y')
+       | Zneg y' -> Zpos (Pos.mul x' y'))
+
+  (** val pow_pos : z -> positive -> z **)
+
+  let pow_pos z0 =
+    Pos.iter (mul z0) (Zpos XH)
+
+  (** val pow : z -> z -> z **)
+
+  let pow x = function
+  | Z0 -> Zpos XH
+  | Zpos p -> pow_pos x p
+  | Zneg _ -> Z0
+
+  (** val compare : z -> z -> comparison **)
+
+  let compare x y =
+    match x with
+    | Z0 -> (match y with
+             | Z0 -> Eq
+             | Zpos _ -> Lt
+             | Zneg _ -> Gt)
+    | Zpos x' -> (match y with
+                  | Zpos y' -> Pos.compare x' y'
+                  | _ -> Gt)
+    | Zneg x' ->
+      (match y with
+       | Zneg y' -> compOpp (Pos.compare x' y')
+       | _ -> Lt)
+
+  (** val leb : z -> z -> bool **)
+
+  let leb x y =
+    match compare x y with
+    | Gt -> false
+    | _ -> true
+
+  (** val ltb : z -> z -> bool **)
+
+  let ltb x y =
+    match compare x y with
+    | Lt -> true
+    | _ -> false
+
+  (** val geb : z -> z -> bool **)
+
+  let geb x y =
+    match compare x y with
+    | Lt -> false
+    | _ -> true
+
+  (** val gtb : z -> z -> bool **)
+
+  let gtb x y =
+    match compare x y with
+    | Gt -> true
+    | _ -> false
 
   (** val eqb : z -> z -> bool **)
 
@@ -276,517 +546,558 @@ module Z =
   let of_N = function
   | N0 -> Z0
   | Npos p -> Zpos p
+
+  (** val pos_div_eucl : positive -> z -> z * z **)
+
+  let rec pos_div_eucl a b =
+    match a with
+    | XI a' ->
+      let (q, r) = pos_div_eucl a' b in
+      let r' = add (mul (Zpos (XO XH)) r) (Zpos XH) in
+      if ltb r' b
+      then ((mul (Zpos (XO XH)) q), r')
+      else ((add (mul (Zpos (XO XH)) q) (Zpos XH)), (sub r' b))
+    | XO a' ->
+      let (q, r) = pos_div_eucl a' b in
+      let r' = mul (Zpos (XO XH)) r in
+      if ltb r' b
+      then ((mul (Zpos (XO XH)) q), r')
+      else ((add (mul (Zpos (XO XH)) q) (Zpos XH)), (sub r' b))
+    | XH -> if leb (Zpos (XO XH)) b then (Z0, (Zpos XH)) else ((Zpos XH), Z0)
+
+  (** val div_eucl : z -> z -> z * z **)
+
+  let div_eucl a b =
+    match a with
+    | Z0 -> (Z0, Z0)
+    | Zpos a' ->
+      (match b with
+       | Z0 -> (Z0, a)
+       | Zpos _ -> pos_div_eucl a' b
+       | Zneg b' ->
+         let (q, r) = pos_div_eucl a' (Zpos b') in
+         (match r with
+          | Z0 -> ((opp q), Z0)
+          | _ -> ((opp (add q (Zpos XH))), (add b r))))
+    | Zneg a' ->
+      (match b with
+       | Z0 -> (Z0, a)
+       | Zpos _ ->
+         let (q, r) = pos_div_eucl a' b in
+         (match r with
+          | Z0 -> ((opp q), Z0)
+          | _ -> ((opp (add q (Zpos XH))), (sub b r)))
+       | Zneg b' -> let (q, r) = pos_div_eucl a' (Zpos b') in (q, (opp r)))
+
+  (** val div : z -> z -> z **)
+
+  let div a b =
+    let (q, _) = div_eucl a b in q
+
+  (** val modulo : z -> z -> z **)
+
+  let modulo a b =
+    let (_, r) = div_eucl a b in r
+
+  (** val div2 : z -> z **)
+
+  let div2 = function
+  | Z0 -> Z0
+  | Zpos p -> (match p with
+               | XH -> Z0
+               | _ -> Zpos (Pos.div2 p))
+  | Zneg p -> Zneg (Pos.div2_up p)
+
+  (** val shiftl : z -> z -> z **)
+
+  let shiftl a = function
+  | Z0 -> a
+  | Zpos p -> Pos.iter (mul (Zpos (XO XH))) a p
+  | Zneg p -> Pos.iter div2 a p
+
+  (** val shiftr : z -> z -> z **)
+
+  let shiftr a n0 =
+    shiftl a (opp n0)
+
+  (** val coq_land : z -> z -> z **)
+
+  let coq_land a b =
+    match a with
+    | Z0 -> Z0
+    | Zpos a0 ->
+      (match b with
+       | Z0 -> Z0
+       | Zpos b0 -> of_N (Pos.coq_land a0 b0)
+       | Zneg b0 -> of_N (N.ldiff (Npos a0) (Pos.pred_N b0)))
+    | Zneg a0 ->
+      (match b with
+       | Z0 -> Z0
+       | Zpos b0 -> of_N (N.ldiff (Npos b0) (Pos.pred_N a0))
+       | Zneg b0 ->
+         Zneg (N.succ_pos (N.coq_lor (Pos.pred_N a0) (Pos.pred_N b0))))
  end
 
-(** val rc_magic_size : nat **)
+(** val wrap32 : z -> z **)
 
-let rc_magic_size =
-  S (S (S (S (S (S O)))))
+let wrap32 z0 =
+  Z.sub
+    (Z.modulo
+      (Z.add z0 (Zpos (XO (XO (XO (XO (XO (XO (XO (XO (XO (XO (XO (XO (XO (XO
+        (XO (XO (XO (XO (XO (XO (XO (XO (XO (XO (XO (XO (XO (XO (XO (XO (XO
+        XH))))))))))))))))))))))))))))))))) (Zpos (XO (XO (XO (XO (XO (XO (XO
+      (XO (XO (XO (XO (XO (XO (XO (XO (XO (XO (XO (XO (XO (XO (XO (XO (XO (XO
+      (XO (XO (XO (XO (XO (XO (XO XH)))))))))))))))))))))))))))))))))) (Zpos
+    (XO (XO (XO (XO (XO (XO (XO (XO (XO (XO (XO (XO (XO (XO (XO (XO (XO (XO
+    (XO (XO (XO (XO (XO (XO (XO (XO (XO (XO (XO (XO (XO
+    XH))))))))))))))))))))))))))))))))
 
-(** val wr_min_progress : nat **)
+(** val tABLE : z list **)
 
-let wr_min_progress =
-  S O
-
-(** val bs_buffer_size : n **)
-
-let bs_buffer_size =
-  Npos (XO (XO (XO (XO (XO (XO (XO (XO (XO (XO (XO (XO (XO XH)))))))))))))
-
-(** val tbs_block_size : n **)
-
-let tbs_block_size =
-  Npos (XO (XO (XO (XO (XO (XO (XO (XO (XO (XO (XO (XO (XO XH)))))))))))))
-
-(** val rc_magic_gz : z list **)
-
-let rc_magic_gz =
-  (Zpos (XI (XI (XI (XI XH))))) :: ((Zpos (XI (XI (XO (XI (XO (XO (XO
-    XH)))))))) :: [])
-
-(** val rc_magic_bz : z list **)
-
-let rc_magic_bz =
-  (Zpos (XO (XI (XO (XO (XO (XO XH))))))) :: ((Zpos (XO (XI (XO (XI (XI (XO
-    XH))))))) :: ((Zpos (XO (XO (XO (XI (XO (XI XH))))))) :: []))
-
-(** val rc_magic_xz : z list **)
-
-let rc_magic_xz =
-  (Zpos (XI (XO (XI (XI (XI (XI (XI XH)))))))) :: ((Zpos (XI (XI (XI (XO (XI
-    XH)))))) :: ((Zpos (XO (XI (XO (XI (XI (XI XH))))))) :: ((Zpos (XO (XO
+let tABLE =
+  (Zpos (XI (XO (XO (XO (XO (XO XH))))))) :: ((Zpos (XO (XI (XO (XO (XO (XO
+    XH))))))) :: ((Zpos (XI (XI (XO (XO (XO (XO XH))))))) :: ((Zpos (XO (XO
+    (XI (XO (XO (XO XH))))))) :: ((Zpos (XI (XO (XI (XO (XO (XO
+    XH))))))) :: ((Zpos (XO (XI (XI (XO (XO (XO XH))))))) :: ((Zpos (XI (XI
+    (XI (XO (XO (XO XH))))))) :: ((Zpos (XO (XO (XO (XI (XO (XO
+    XH))))))) :: ((Zpos (XI (XO (XO (XI (XO (XO XH))))))) :: ((Zpos (XO (XI
+    (XO (XI (XO (XO XH))))))) :: ((Zpos (XI (XI (XO (XI (XO (XO
+    XH))))))) :: ((Zpos (XO (XO (XI (XI (XO (XO XH))))))) :: ((Zpos (XI (XO
+    (XI (XI (XO (XO XH))))))) :: ((Zpos (XO (XI (XI (XI (XO (XO
+    XH))))))) :: ((Zpos (XI (XI (XI (XI (XO (XO XH))))))) :: ((Zpos (XO (XO
+    (XO (XO (XI (XO XH))))))) :: ((Zpos (XI (XO (XO (XO (XI (XO
+    XH))))))) :: ((Zpos (XO (XI (XO (XO (XI (XO XH))))))) :: ((Zpos (XI (XI
+    (XO (XO (XI (XO XH))))))) :: ((Zpos (XO (XO (XI (XO (XI (XO
+    XH))))))) :: ((Zpos (XI (XO (XI (XO (XI (XO XH))))))) :: ((Zpos (XO (XI
+    (XI (XO (XI (XO XH))))))) :: ((Zpos (XI (XI (XI (XO (XI (XO
+    XH))))))) :: ((Zpos (XO (XO (XO (XI (XI (XO XH))))))) :: ((Zpos (XI (XO
     (XO (XI (XI (XO XH))))))) :: ((Zpos (XO (XI (XO (XI (XI (XO
-    XH))))))) :: (Z0 :: [])))))
-
-type outcome =
-| Full
-| Short of nat
-| Eintr
-| Err of z
-
-type os = { os_src : z list; os_script : outcome list;
-            os_trace : (nat * z) list; os_sink : z list }
-
-(** val os_trace : os -> (nat * z) list **)
-
-let os_trace o =
-  o.os_trace
-
-(** val os_sink : os -> z list **)
-
-let os_sink o =
-  o.os_sink
-
-(** val os_init : z list -> outcome list -> os **)
-
-let os_init src script =
-  { os_src = src; os_script = script; os_trace = []; os_sink = [] }
-
-type sysres =
-| SData of z list
-| SEintr
-| SErr of z
-
-(** val granted : outcome -> nat -> nat **)
-
-let granted oc n0 =
-  match oc with
-  | Short k -> Nat.min n0 (Nat.max (S O) k)
-  | _ -> n0
-
-(** val next_outcome : os -> outcome * outcome list **)
-
-let next_outcome o =
-  match o.os_script with
-  | [] -> (Full, [])
-  | oc :: r -> (oc, r)
-
-(** val sys_read : nat -> os -> sysres * os **)
-
-let sys_read n0 o =
-  let (oc, rest) = next_outcome o in
-  (match oc with
-   | Eintr ->
-     (SEintr, { os_src = o.os_src; os_script = rest; os_trace = ((n0, (Zneg
-       XH)) :: o.os_trace); os_sink = o.os_sink })
-   | Err e ->
-     ((SErr e), { os_src = o.os_src; os_script = rest; os_trace = ((n0, (Zneg
-       (XO XH))) :: o.os_trace); os_sink = o.os_sink })
-   | _ ->
-     let m = granted oc n0 in
-     let l = firstn m o.os_src in
-     ((SData l), { os_src = (skipn m o.os_src); os_script = rest; os_trace =
-     ((n0, (Z.of_nat (length l))) :: o.os_trace); os_sink = o.os_sink }))
-
-(** val sys_write : z list -> os -> sysres * os **)
-
-let sys_write data o =
-  let n0 = length data in
-  let (oc, rest) = next_outcome o in
-  (match oc with
-   | Eintr ->
-     (SEintr, { os_src = o.os_src; os_script = rest; os_trace = ((n0, (Zneg
-       XH)) :: o.os_trace); os_sink = o.os_sink })
-   | Err e ->
-     ((SErr e), { os_src = o.os_src; os_script = rest; os_trace = ((n0, (Zneg
-       (XO XH))) :: o.os_trace); os_sink = o.os_sink })
-   | _ ->
-     let m = granted oc n0 in
-     let l = firstn m data in
-     ((SData l), { os_src = o.os_src; os_script = rest; os_trace = ((n0,
-     (Z.of_nat (length l))) :: o.os_trace); os_sink = (app o.os_sink l) }))
-
-type ioerr =
-| EFuel
-| EErrno of z
-| EEndOfFile
-| EWriteZero
-| ECompressed
-
-type 'a res =
-| Ok of 'a
-| Fail of ioerr
-
-(** val eintr_fuel : os -> nat **)
-
-let eintr_fuel o =
-  S (length o.os_script)
-
-(** val partial_read_loop : nat -> nat -> os -> z list res * os **)
-
-let rec partial_read_loop fuel amount o =
-  match fuel with
-  | O -> ((Fail EFuel), o)
-  | S f ->
-    let (s, o') = sys_read amount o in
-    (match s with
-     | SData l -> ((Ok l), o')
-     | SEintr -> partial_read_loop f amount o'
-     | SErr e -> ((Fail (EErrno e)), o'))
-
-(** val partial_read : nat -> os -> z list res * os **)
-
-let partial_read amount o =
-  partial_read_loop (eintr_fuel o) amount o
-
-(** val read_or_eof_loop : nat -> nat -> z list -> os -> z list res * os **)
-
-let rec read_or_eof_loop fuel remaining acc o =
-  match remaining with
-  | O -> ((Ok acc), o)
-  | S _ ->
-    (match fuel with
-     | O -> ((Fail EFuel), o)
-     | S f ->
-       let (r, o') = partial_read remaining o in
-       (match r with
-        | Ok l ->
-          (match l with
-           | [] -> ((Ok acc), o')
-           | _ :: _ ->
-             read_or_eof_loop f (sub remaining (length l)) (app acc l) o')
-        | Fail e -> ((Fail e), o')))
-
-(** val read_or_eof : nat -> os -> z list res * os **)
-
-let read_or_eof amount o =
-  read_or_eof_loop (S amount) amount [] o
-
-(** val read_or_throw_loop : nat -> nat -> z list -> os -> z list res * os **)
-
-let rec read_or_throw_loop fuel amount acc o =
-  match amount with
-  | O -> ((Ok acc), o)
-  | S _ ->
-    (match fuel with
-     | O -> ((Fail EFuel), o)
-     | S f ->
-       let (r, o') = partial_read amount o in
-       (match r with
-        | Ok l ->
-          (match l with
-           | [] -> ((Fail EEndOfFile), o')
-           | _ :: _ ->
-             read_or_throw_loop f (sub amount (length l)) (app acc l) o')
-        | Fail e -> ((Fail e), o')))
-
-(** val read_or_throw : nat -> os -> z list res * os **)
-
-let read_or_throw amount o =
-  read_or_throw_loop (S amount) amount [] o
-
-(** val write_retry : nat -> z list -> os -> z list res * os **)
-
-let rec write_retry fuel data o =
-  match fuel with
-  | O -> ((Fail EFuel), o)
-  | S f ->
-    let (s, o') = sys_write data o in
-    (match s with
-     | SData l -> ((Ok l), o')
-     | SEintr -> write_retry f data o'
-     | SErr e -> ((Fail (EErrno e)), o'))
-
-(** val write_or_throw_loop : nat -> z list -> os -> unit res * os **)
-
-let rec write_or_throw_loop fuel data o =
-  match data with
-  | [] -> ((Ok ()), o)
-  | _ :: _ ->
-    (match fuel with
-     | O -> ((Fail EFuel), o)
-     | S f ->
-       let (r, o') = write_retry (eintr_fuel o) data o in
-       (match r with
-        | Ok l ->
-          if Nat.ltb (length l) wr_min_progress
-          then ((Fail EWriteZero), o')
-          else write_or_throw_loop f (skipn (length l) data) o'
-        | Fail e -> ((Fail e), o')))
-
-(** val write_or_throw : z list -> os -> unit res * os **)
-
-let write_or_throw data o =
-  write_or_throw_loop (S (length data)) data o
-
-(** val sys_pread : nat -> nat -> z list -> os -> sysres * os **)
-
-let sys_pread n0 off file o =
-  let (oc, rest) = next_outcome o in
-  (match oc with
-   | Eintr ->
-     (SEintr, { os_src = o.os_src; os_script = rest; os_trace = ((n0, (Zneg
-       XH)) :: o.os_trace); os_sink = o.os_sink })
-   | Err e ->
-     ((SErr e), { os_src = o.os_src; os_script = rest; os_trace = ((n0, (Zneg
-       (XO XH))) :: o.os_trace); os_sink = o.os_sink })
-   | _ ->
-     let l = firstn (granted oc n0) (skipn off file) in
-     ((SData l), { os_src = o.os_src; os_script = rest; os_trace = ((n0,
-     (Z.of_nat (length l))) :: o.os_trace); os_sink = o.os_sink }))
-
-(** val ersatz_pread_loop :
-    nat -> nat -> nat -> z list -> z list -> os -> z list res * os **)
-
-let rec ersatz_pread_loop fuel size off file acc o =
-  match size with
-  | O -> ((Ok acc), o)
-  | S _ ->
-    (match fuel with
-     | O -> ((Fail EFuel), o)
-     | S f ->
-       let (s, o') = sys_pread size off file o in
-       (match s with
-        | SData l ->
-          (match l with
-           | [] -> ((Fail EEndOfFile), o')
-           | _ :: _ ->
-             ersatz_pread_loop f (sub size (length l)) (add off (length l))
-               file (app acc l) o')
-        | SEintr -> ersatz_pread_loop f size off file acc o'
-        | SErr e -> ((Fail (EErrno e)), o')))
-
-(** val ersatz_pread : nat -> nat -> z list -> os -> z list res * os **)
-
-let ersatz_pread size off file o =
-  ersatz_pread_loop (add (S size) (length o.os_script)) size off file [] o
-
-(** val overwrite : z list -> nat -> z list -> z list **)
-
-let overwrite file off l =
-  let padded = app file (repeat Z0 (sub off (length file))) in
-  app (firstn off padded) (app l (skipn (add off (length l)) padded))
-
-(** val sys_pwrite :
-    z list -> nat -> z list -> os -> (sysres * os) * z list **)
-
-let sys_pwrite data off file o =
-  let n0 = length data in
-  let (oc, rest) = next_outcome o in
-  (match oc with
-   | Eintr ->
-     ((SEintr, { os_src = o.os_src; os_script = rest; os_trace = ((n0, (Zneg
-       XH)) :: o.os_trace); os_sink = o.os_sink }), file)
-   | Err e ->
-     (((SErr e), { os_src = o.os_src; os_script = rest; os_trace = ((n0,
-       (Zneg (XO XH))) :: o.os_trace); os_sink = o.os_sink }), file)
-   | _ ->
-     let l = firstn (granted oc n0) data in
-     (((SData l), { os_src = o.os_src; os_script = rest; os_trace = ((n0,
-     (Z.of_nat (length l))) :: o.os_trace); os_sink = o.os_sink }),
-     (overwrite file off l)))
-
-(** val ersatz_pwrite_loop :
-    nat -> z list -> nat -> z list -> os -> z list res * os **)
-
-let rec ersatz_pwrite_loop fuel data off file o =
-  match data with
-  | [] -> ((Ok file), o)
-  | _ :: _ ->
-    (match fuel with
-     | O -> ((Fail EFuel), o)
-     | S f ->
-       let (p, file') = sys_pwrite data off file o in
-       let (s, o') = p in
-       (match s with
-        | SData l ->
-          (match l with
-           | [] -> ((Fail EEndOfFile), o')
-           | _ :: _ ->
-             ersatz_pwrite_loop f (skipn (length l) data)
-               (add off (length l)) file' o')
-        | SEintr -> ersatz_pwrite_loop f data off file' o'
-        | SErr e -> ((Fail (EErrno e)), o')))
-
-(** val ersatz_pwrite : z list -> nat -> z list -> os -> z list res * os **)
-
-let ersatz_pwrite data off file o =
-  ersatz_pwrite_loop (add (S (length data)) (length o.os_script)) data off
-    file o
-
-type bstream = { bs_buf : z list; bs_cap : nat }
-
-(** val bs_spill : bstream -> os -> bstream res * os **)
-
-let bs_spill b o =
-  match b.bs_buf with
-  | [] -> ((Ok b), o)
-  | _ :: _ ->
-    let (r, o') = write_or_throw b.bs_buf o in
-    (match r with
-     | Ok _ -> ((Ok { bs_buf = []; bs_cap = b.bs_cap }), o')
-     | Fail e -> ((Fail e), o'))
-
-(** val bs_write : z list -> bstream -> os -> bstream res * os **)
-
-let bs_write data b o =
-  if Nat.leb (add (length b.bs_buf) (length data)) b.bs_cap
-  then ((Ok { bs_buf = (app b.bs_buf data); bs_cap = b.bs_cap }), o)
-  else let (r, o') = bs_spill b o in
-       (match r with
-        | Ok b' ->
-          if Nat.leb (add (length b'.bs_buf) (length data)) b'.bs_cap
-          then ((Ok { bs_buf = (app b'.bs_buf data); bs_cap = b'.bs_cap }),
-                 o')
-          else let (r0, o'') = write_or_throw data o' in
-               (match r0 with
-                | Ok _ -> ((Ok b'), o'')
-                | Fail e -> ((Fail e), o''))
-        | Fail e -> ((Fail e), o'))
-
-(** val bs_flush : bstream -> os -> bstream res * os **)
-
-let bs_flush =
-  bs_spill
-
-(** val bs_run : z list list -> bstream -> os -> bstream res * os **)
-
-let rec bs_run ws b o =
-  match ws with
-  | [] -> bs_flush b o
-  | w :: r ->
-    let (r0, o') = bs_write w b o in
-    (match r0 with
-     | Ok b' -> bs_run r b' o'
-     | Fail e -> ((Fail e), o'))
-
-(** val tbs_write :
-    nat -> z list -> z list -> nat -> (z list list * z list) res **)
-
-let rec tbs_write fuel data buf bsize =
-  match fuel with
-  | O -> Fail EFuel
-  | S f ->
-    if Nat.leb (add (length buf) (length data)) bsize
-    then Ok ([], (app buf data))
-    else let room = sub bsize (length buf) in
-         let full = app buf (firstn room data) in
-         (match full with
-          | [] -> Fail EFuel
-          | _ :: _ ->
-            (match tbs_write f (skipn room data) [] bsize with
-             | Ok a -> let (blocks, buf') = a in Ok ((full :: blocks), buf')
-             | Fail e -> Fail e))
-
-(** val tbs_blocks : z list list -> z list -> nat -> z list list res **)
-
-let rec tbs_blocks ws buf bsize =
-  match ws with
-  | [] -> Ok (match buf with
-              | [] -> []
-              | _ :: _ -> buf :: [])
-  | w :: r ->
-    (match tbs_write (add (length w) (S (S O))) w buf bsize with
-     | Ok a ->
-       let (blocks, buf') = a in
-       (match tbs_blocks r buf' bsize with
-        | Ok more -> Ok (app blocks more)
-        | Fail e -> Fail e)
-     | Fail e -> Fail e)
-
-(** val write_blocks : z list list -> os -> unit res * os **)
-
-let rec write_blocks blocks o =
-  match blocks with
-  | [] -> ((Ok ()), o)
-  | b :: r ->
-    let (r0, o') = write_or_throw b o in
-    (match r0 with
-     | Ok _ -> write_blocks r o'
-     | Fail e -> ((Fail e), o'))
-
-(** val tbs_run : z list list -> nat -> os -> unit res * os **)
-
-let tbs_run ws bsize o =
-  match tbs_blocks ws [] bsize with
-  | Ok blocks -> write_blocks blocks o
-  | Fail e -> ((Fail e), o)
-
-type rcstate =
-| RcHeader of z list
-| RcFd
-| RcComplete
-| RcIStream
-
-(** val is_prefix : z list -> z list -> bool **)
-
-let rec is_prefix p l =
-  match p with
-  | [] -> true
-  | a :: p' ->
-    (match l with
-     | [] -> false
-     | b :: l' -> (&&) (Z.eqb a b) (is_prefix p' l'))
-
-(** val detect_magic : z list -> bool **)
-
-let detect_magic h =
-  (||) ((||) (is_prefix rc_magic_gz h) (is_prefix rc_magic_bz h))
-    (is_prefix rc_magic_xz h)
-
-(** val read_factory : os -> rcstate res * os **)
-
-let read_factory o =
-  let (r, o') = read_or_eof rc_magic_size o in
-  (match r with
-   | Ok h ->
-     (match h with
-      | [] -> ((Ok RcComplete), o')
-      | _ :: _ ->
-        if detect_magic h
-        then ((Fail ECompressed), o')
-        else ((Ok (RcHeader h)), o'))
-   | Fail e -> ((Fail e), o'))
-
-(** val rc_read : nat -> rcstate -> os -> (z list res * rcstate) * os **)
-
-let rc_read amount rc o =
-  match rc with
-  | RcHeader h ->
-    let l = firstn amount h in
-    (((Ok l),
-    (match skipn amount h with
-     | [] -> RcFd
-     | z0 :: l0 -> RcHeader (z0 :: l0))), o)
-  | RcFd -> let (r, o') = partial_read amount o in ((r, RcFd), o')
-  | RcComplete -> (((Ok []), RcComplete), o)
-  | RcIStream ->
-    (((Ok (firstn amount o.os_src)), RcIStream), { os_src =
-      (skipn amount o.os_src); os_script = o.os_script; os_trace =
-      o.os_trace; os_sink = o.os_sink })
-
-(** val rc_read_or_eof_loop :
-    nat -> nat -> z list -> rcstate -> os -> (z list res * rcstate) * os **)
-
-let rec rc_read_or_eof_loop fuel amount acc rc o =
-  match amount with
-  | O -> (((Ok acc), rc), o)
-  | S _ ->
-    (match fuel with
-     | O -> (((Fail EFuel), rc), o)
-     | S f ->
-       let (p, o') = rc_read amount rc o in
-       let (r, rc') = p in
-       (match r with
-        | Ok l ->
-          (match l with
-           | [] -> (((Ok acc), rc'), o')
-           | _ :: _ ->
-             rc_read_or_eof_loop f (sub amount (length l)) (app acc l) rc' o')
-        | Fail e -> (((Fail e), rc'), o')))
-
-(** val rc_read_or_eof :
-    nat -> rcstate -> os -> (z list res * rcstate) * os **)
-
-let rc_read_or_eof amount rc o =
-  rc_read_or_eof_loop (S amount) amount [] rc o
-
-(** val rc_open_read_or_eof : nat -> os -> z list res * os **)
-
-let rc_open_read_or_eof amount o =
-  let (r, o') = read_factory o in
-  (match r with
-   | Ok rc ->
-     let (p, o'') = rc_read_or_eof amount rc o' in
-     let (r0, _) = p in (r0, o'')
-   | Fail e -> ((Fail e), o'))
+    XH))))))) :: ((Zpos (XI (XO (XO (XO (XO (XI XH))))))) :: ((Zpos (XO (XI
+    (XO (XO (XO (XI XH))))))) :: ((Zpos (XI (XI (XO (XO (XO (XI
+    XH))))))) :: ((Zpos (XO (XO (XI (XO (XO (XI XH))))))) :: ((Zpos (XI (XO
+    (XI (XO (XO (XI XH))))))) :: ((Zpos (XO (XI (XI (XO (XO (XI
+    XH))))))) :: ((Zpos (XI (XI (XI (XO (XO (XI XH))))))) :: ((Zpos (XO (XO
+    (XO (XI (XO (XI XH))))))) :: ((Zpos (XI (XO (XO (XI (XO (XI
+    XH))))))) :: ((Zpos (XO (XI (XO (XI (XO (XI XH))))))) :: ((Zpos (XI (XI
+    (XO (XI (XO (XI XH))))))) :: ((Zpos (XO (XO (XI (XI (XO (XI
+    XH))))))) :: ((Zpos (XI (XO (XI (XI (XO (XI XH))))))) :: ((Zpos (XO (XI
+    (XI (XI (XO (XI XH))))))) :: ((Zpos (XI (XI (XI (XI (XO (XI
+    XH))))))) :: ((Zpos (XO (XO (XO (XO (XI (XI XH))))))) :: ((Zpos (XI (XO
+    (XO (XO (XI (XI XH))))))) :: ((Zpos (XO (XI (XO (XO (XI (XI
+    XH))))))) :: ((Zpos (XI (XI (XO (XO (XI (XI XH))))))) :: ((Zpos (XO (XO
+    (XI (XO (XI (XI XH))))))) :: ((Zpos (XI (XO (XI (XO (XI (XI
+    XH))))))) :: ((Zpos (XO (XI (XI (XO (XI (XI XH))))))) :: ((Zpos (XI (XI
+    (XI (XO (XI (XI XH))))))) :: ((Zpos (XO (XO (XO (XI (XI (XI
+    XH))))))) :: ((Zpos (XI (XO (XO (XI (XI (XI XH))))))) :: ((Zpos (XO (XI
+    (XO (XI (XI (XI XH))))))) :: ((Zpos (XO (XO (XO (XO (XI
+    XH)))))) :: ((Zpos (XI (XO (XO (XO (XI XH)))))) :: ((Zpos (XO (XI (XO (XO
+    (XI XH)))))) :: ((Zpos (XI (XI (XO (XO (XI XH)))))) :: ((Zpos (XO (XO (XI
+    (XO (XI XH)))))) :: ((Zpos (XI (XO (XI (XO (XI XH)))))) :: ((Zpos (XO (XI
+    (XI (XO (XI XH)))))) :: ((Zpos (XI (XI (XI (XO (XI XH)))))) :: ((Zpos (XO
+    (XO (XO (XI (XI XH)))))) :: ((Zpos (XI (XO (XO (XI (XI XH)))))) :: ((Zpos
+    (XI (XI (XO (XI (XO XH)))))) :: ((Zpos (XI (XI (XI (XI (XO
+    XH)))))) :: [])))))))))))))))))))))))))))))))))))))))))))))))))))))))))))))))
+
+(** val iNV_TABLE : z list **)
+
+let iNV_TABLE =
+  (Zneg XH) :: ((Zneg XH) :: ((Zneg XH) :: ((Zneg XH) :: ((Zneg XH) :: ((Zneg
+    XH) :: ((Zneg XH) :: ((Zneg XH) :: ((Zneg XH) :: ((Zneg XH) :: ((Zneg
+    XH) :: ((Zneg XH) :: ((Zneg XH) :: ((Zneg XH) :: ((Zneg XH) :: ((Zneg
+    XH) :: ((Zneg XH) :: ((Zneg XH) :: ((Zneg XH) :: ((Zneg XH) :: ((Zneg
+    XH) :: ((Zneg XH) :: ((Zneg XH) :: ((Zneg XH) :: ((Zneg XH) :: ((Zneg
+    XH) :: ((Zneg XH) :: ((Zneg XH) :: ((Zneg XH) :: ((Zneg XH) :: ((Zneg
+    XH) :: ((Zneg XH) :: ((Zneg XH) :: ((Zneg XH) :: ((Zneg XH) :: ((Zneg
+    XH) :: ((Zneg XH) :: ((Zneg XH) :: ((Zneg XH) :: ((Zneg XH) :: ((Zneg
+    XH) :: ((Zneg XH) :: ((Zneg XH) :: ((Zpos (XO (XI (XI (XI (XI
+    XH)))))) :: ((Zneg XH) :: ((Zneg XH) :: ((Zneg XH) :: ((Zpos (XI (XI (XI
+    (XI (XI XH)))))) :: ((Zpos (XO (XO (XI (XO (XI XH)))))) :: ((Zpos (XI (XO
+    (XI (XO (XI XH)))))) :: ((Zpos (XO (XI (XI (XO (XI XH)))))) :: ((Zpos (XI
+    (XI (XI (XO (XI XH)))))) :: ((Zpos (XO (XO (XO (XI (XI XH)))))) :: ((Zpos
+    (XI (XO (XO (XI (XI XH)))))) :: ((Zpos (XO (XI (XO (XI (XI
+    XH)))))) :: ((Zpos (XI (XI (XO (XI (XI XH)))))) :: ((Zpos (XO (XO (XI (XI
+    (XI XH)))))) :: ((Zpos (XI (XO (XI (XI (XI XH)))))) :: ((Zneg
+    XH) :: ((Zneg XH) :: ((Zneg XH) :: ((Zneg XH) :: ((Zneg XH) :: ((Zneg
+    XH) :: ((Zneg XH) :: (Z0 :: ((Zpos XH) :: ((Zpos (XO XH)) :: ((Zpos (XI
+    XH)) :: ((Zpos (XO (XO XH))) :: ((Zpos (XI (XO XH))) :: ((Zpos (XO (XI
+    XH))) :: ((Zpos (XI (XI XH))) :: ((Zpos (XO (XO (XO XH)))) :: ((Zpos (XI
+    (XO (XO XH)))) :: ((Zpos (XO (XI (XO XH)))) :: ((Zpos (XI (XI (XO
+    XH)))) :: ((Zpos (XO (XO (XI XH)))) :: ((Zpos (XI (XO (XI
+    XH)))) :: ((Zpos (XO (XI (XI XH)))) :: ((Zpos (XI (XI (XI
+    XH)))) :: ((Zpos (XO (XO (XO (XO XH))))) :: ((Zpos (XI (XO (XO (XO
+    XH))))) :: ((Zpos (XO (XI (XO (XO XH))))) :: ((Zpos (XI (XI (XO (XO
+    XH))))) :: ((Zpos (XO (XO (XI (XO XH))))) :: ((Zpos (XI (XO (XI (XO
+    XH))))) :: ((Zpos (XO (XI (XI (XO XH))))) :: ((Zpos (XI (XI (XI (XO
+    XH))))) :: ((Zpos (XO (XO (XO (XI XH))))) :: ((Zpos (XI (XO (XO (XI
+    XH))))) :: ((Zneg XH) :: ((Zneg XH) :: ((Zneg XH) :: ((Zneg XH) :: ((Zneg
+    XH) :: ((Zneg XH) :: ((Zpos (XO (XI (XO (XI XH))))) :: ((Zpos (XI (XI (XO
+    (XI XH))))) :: ((Zpos (XO (XO (XI (XI XH))))) :: ((Zpos (XI (XO (XI (XI
+    XH))))) :: ((Zpos (XO (XI (XI (XI XH))))) :: ((Zpos (XI (XI (XI (XI
+    XH))))) :: ((Zpos (XO (XO (XO (XO (XO XH)))))) :: ((Zpos (XI (XO (XO (XO
+    (XO XH)))))) :: ((Zpos (XO (XI (XO (XO (XO XH)))))) :: ((Zpos (XI (XI (XO
+    (XO (XO XH)))))) :: ((Zpos (XO (XO (XI (XO (XO XH)))))) :: ((Zpos (XI (XO
+    (XI (XO (XO XH)))))) :: ((Zpos (XO (XI (XI (XO (XO XH)))))) :: ((Zpos (XI
+    (XI (XI (XO (XO XH)))))) :: ((Zpos (XO (XO (XO (XI (XO XH)))))) :: ((Zpos
+    (XI (XO (XO (XI (XO XH)))))) :: ((Zpos (XO (XI (XO (XI (XO
+    XH)))))) :: ((Zpos (XI (XI (XO (XI (XO XH)))))) :: ((Zpos (XO (XO (XI (XI
+    (XO XH)))))) :: ((Zpos (XI (XO (XI (XI (XO XH)))))) :: ((Zpos (XO (XI (XI
+    (XI (XO XH)))))) :: ((Zpos (XI (XI (XI (XI (XO XH)))))) :: ((Zpos (XO (XO
+    (XO (XO (XI XH)))))) :: ((Zpos (XI (XO (XO (XO (XI XH)))))) :: ((Zpos (XO
+    (XI (XO (XO (XI XH)))))) :: ((Zpos (XI (XI (XO (XO (XI XH)))))) :: ((Zneg
+    XH) :: ((Zneg XH) :: ((Zneg XH) :: ((Zneg XH) :: ((Zneg XH) :: ((Zneg
+    XH) :: ((Zneg XH) :: ((Zneg XH) :: ((Zneg XH) :: ((Zneg XH) :: ((Zneg
+    XH) :: ((Zneg XH) :: ((Zneg XH) :: ((Zneg XH) :: ((Zneg XH) :: ((Zneg
+    XH) :: ((Zneg XH) :: ((Zneg XH) :: ((Zneg XH) :: ((Zneg XH) :: ((Zneg
+    XH) :: ((Zneg XH) :: ((Zneg XH) :: ((Zneg XH) :: ((Zneg XH) :: ((Zneg
+    XH) :: ((Zneg XH) :: ((Zneg XH) :: ((Zneg XH) :: ((Zneg XH) :: ((Zneg
+    XH) :: ((Zneg XH) :: ((Zneg XH) :: ((Zneg XH) :: ((Zneg XH) :: ((Zneg
+    XH) :: ((Zneg XH) :: ((Zneg XH) :: ((Zneg XH) :: ((Zneg XH) :: ((Zneg
+    XH) :: ((Zneg XH) :: ((Zneg XH) :: ((Zneg XH) :: ((Zneg XH) :: ((Zneg
+    XH) :: ((Zneg XH) :: ((Zneg XH) :: ((Zneg XH) :: ((Zneg XH) :: ((Zneg
+    XH) :: ((Zneg XH) :: ((Zneg XH) :: ((Zneg XH) :: ((Zneg XH) :: ((Zneg
+    XH) :: ((Zneg XH) :: ((Zneg XH) :: ((Zneg XH) :: ((Zneg XH) :: ((Zneg
+    XH) :: ((Zneg XH) :: ((Zneg XH) :: ((Zneg XH) :: ((Zneg XH) :: ((Zneg
+    XH) :: ((Zneg XH) :: ((Zneg XH) :: ((Zneg XH) :: ((Zneg XH) :: ((Zneg
+    XH) :: ((Zneg XH) :: ((Zneg XH) :: ((Zneg XH) :: ((Zneg XH) :: ((Zneg
+    XH) :: ((Zneg XH) :: ((Zneg XH) :: ((Zneg XH) :: ((Zneg XH) :: ((Zneg
+    XH) :: ((Zneg XH) :: ((Zneg XH) :: ((Zneg XH) :: ((Zneg XH) :: ((Zneg
+    XH) :: ((Zneg XH) :: ((Zneg XH) :: ((Zneg XH) :: ((Zneg XH) :: ((Zneg
+    XH) :: ((Zneg XH) :: ((Zneg XH) :: ((Zneg XH) :: ((Zneg XH) :: ((Zneg
+    XH) :: ((Zneg XH) :: ((Zneg XH) :: ((Zneg XH) :: ((Zneg XH) :: ((Zneg
+    XH) :: ((Zneg XH) :: ((Zneg XH) :: ((Zneg XH) :: ((Zneg XH) :: ((Zneg
+    XH) :: ((Zneg XH) :: ((Zneg XH) :: ((Zneg XH) :: ((Zneg XH) :: ((Zneg
+    XH) :: ((Zneg XH) :: ((Zneg XH) :: ((Zneg XH) :: ((Zneg XH) :: ((Zneg
+    XH) :: ((Zneg XH) :: ((Zneg XH) :: ((Zneg XH) :: ((Zneg XH) :: ((Zneg
+    XH) :: ((Zneg XH) :: ((Zneg XH) :: ((Zneg XH) :: ((Zneg XH) :: ((Zneg
+    XH) :: ((Zneg XH) :: ((Zneg XH) :: ((Zneg XH) :: ((Zneg XH) :: ((Zneg
+    XH) :: ((Zneg XH) :: ((Zneg
+    XH) :: [])))))))))))))))))))))))))))))))))))))))))))))))))))))))))))))))))))))))))))))))))))))))))))))))))))))))))))))))))))))))))))))))))))))))))))))))))))))))))))))))))))))))))))))))))))))))))))))))))))))))))))))))))))))))))))))))))))))))))))))))))))))))))))))))
+
+(** val enc_val0 : z **)
+
+let enc_val0 =
+  Z0
+
+(** val enc_valb0 : z **)
+
+let enc_valb0 =
+  Zneg (XO (XI XH))
+
+(** val enc_shift : z **)
+
+let enc_shift =
+  Zpos (XO (XO (XO XH)))
+
+(** val enc_valb_add : z **)
+
+let enc_valb_add =
+  Zpos (XO (XO (XO XH)))
+
+(** val enc_loop_bound : z **)
+
+let enc_loop_bound =
+  Z0
+
+(** val enc_mask : z **)
+
+let enc_mask =
+  Zpos (XI (XI (XI (XI (XI XH)))))
+
+(** val enc_valb_sub : z **)
+
+let enc_valb_sub =
+  Zpos (XO (XI XH))
+
+(** val enc_tail_bound : z **)
+
+let enc_tail_bound =
+  Zneg (XO (XI XH))
+
+(** val enc_tail_shl : z **)
+
+let enc_tail_shl =
+  Zpos (XO (XO (XO XH)))
+
+(** val enc_tail_add : z **)
+
+let enc_tail_add =
+  Zpos (XO (XO (XO XH)))
+
+(** val enc_tail_mask : z **)
+
+let enc_tail_mask =
+  Zpos (XI (XI (XI (XI (XI XH)))))
+
+(** val enc_pad_mod : z **)
+
+let enc_pad_mod =
+  Zpos (XO (XO XH))
+
+(** val pad_char : z **)
+
+let pad_char =
+  Zpos (XI (XO (XI (XI (XI XH)))))
+
+(** val dec_val0 : z **)
+
+let dec_val0 =
+  Z0
+
+(** val dec_valb0 : z **)
+
+let dec_valb0 =
+  Zneg (XO (XO (XO XH)))
+
+(** val dec_pad_char : z **)
+
+let dec_pad_char =
+  Zpos (XI (XO (XI (XI (XI XH)))))
+
+(** val dec_reject : z **)
+
+let dec_reject =
+  Zneg XH
+
+(** val dec_shift : z **)
+
+let dec_shift =
+  Zpos (XO (XI XH))
+
+(** val dec_valb_add : z **)
+
+let dec_valb_add =
+  Zpos (XO (XI XH))
+
+(** val dec_out_bound : z **)
+
+let dec_out_bound =
+  Z0
+
+(** val dec_mask : z **)
+
+let dec_mask =
+  Zpos (XI (XI (XI (XI (XI (XI (XI XH)))))))
+
+(** val dec_valb_sub : z **)
+
+let dec_valb_sub =
+  Zpos (XO (XO (XO XH)))
+
+(** val tbl : z -> z **)
+
+let tbl i =
+  nth (Z.to_nat i) tABLE Z0
+
+(** val inv : z -> z **)
+
+let inv c =
+  nth (Z.to_nat c) iNV_TABLE Z0
+
+(** val sel : z -> z -> z -> z **)
+
+let sel val0 valb mask =
+  Z.coq_land (Z.shiftr val0 valb) mask
+
+(** val enc_drain : nat -> z -> z -> (z list * z) option **)
+
+let rec enc_drain fuel val0 valb =
+  if Z.geb valb enc_loop_bound
+  then (match fuel with
+        | O -> None
+        | S f ->
+          (match enc_drain f val0 (Z.sub valb enc_valb_sub) with
+           | Some p ->
+             let (o, vb) = p in
+             Some (((tbl (sel val0 valb enc_mask)) :: o), vb)
+           | None -> None))
+  else Some ([], valb)
+
+(** val drain_fuel : nat **)
+
+let drain_fuel =
+  S (S (S (S (S (S (S (S O)))))))
+
+(** val enc_bytes : z list -> z -> z -> ((z list * z) * z) option **)
+
+let rec enc_bytes bs val0 valb =
+  match bs with
+  | [] -> Some (([], val0), valb)
+  | c :: r ->
+    let val' = wrap32 (Z.add (Z.mul val0 (Z.pow (Zpos (XO XH)) enc_shift)) c)
+    in
+    (match enc_drain drain_fuel val' (Z.add valb enc_valb_add) with
+     | Some p ->
+       let (o, vb) = p in
+       (match enc_bytes r val' vb with
+        | Some p0 ->
+          let (p1, b) = p0 in let (o2, v) = p1 in Some (((app o o2), v), b)
+        | None -> None)
+     | None -> None)
+
+(** val enc_pad : nat -> z list **)
+
+let enc_pad n0 =
+  repeat pad_char
+    (Z.to_nat
+      (Z.modulo (Z.sub enc_pad_mod (Z.modulo (Z.of_nat n0) enc_pad_mod))
+        enc_pad_mod))
+
+(** val base64_encode : z list -> z list option **)
+
+let base64_encode bs =
+  match enc_bytes bs enc_val0 enc_valb0 with
+  | Some p ->
+    let (p0, valb) = p in
+    let (o, val0) = p0 in
+    let o' =
+      if Z.gtb valb enc_tail_bound
+      then app o
+             ((tbl
+                (sel
+                  (wrap32 (Z.mul val0 (Z.pow (Zpos (XO XH)) enc_tail_shl)))
+                  (Z.add valb enc_tail_add) enc_tail_mask)) :: [])
+      else o
+    in
+    Some (app o' (enc_pad (length o')))
+  | None -> None
+
+type dres =
+| DOk of z list
+| DBadChar of z
+| DLengthError
+
+(** val count_padding_rev : z list -> nat **)
+
+let rec count_padding_rev = function
+| [] -> O
+| c :: r' ->
+  if Z.eqb c (Zpos (XI (XO (XI (XI (XI XH))))))
+  then S (count_padding_rev r')
+  else O
+
+(** val count_padding : z list -> nat **)
+
+let count_padding cs =
+  count_padding_rev (rev cs)
+
+(** val dec_loop : z list -> z -> z -> dres **)
+
+let rec dec_loop cs val0 valb =
+  match cs with
+  | [] -> DOk []
+  | c :: r ->
+    if Z.eqb c dec_pad_char
+    then DOk []
+    else if Z.eqb (inv c) dec_reject
+         then DBadChar c
+         else let val' =
+                wrap32
+                  (Z.add (Z.mul val0 (Z.pow (Zpos (XO XH)) dec_shift))
+                    (inv c))
+              in
+              let valb' = Z.add valb dec_valb_add in
+              if Z.geb valb' dec_out_bound
+              then (match dec_loop r val' (Z.sub valb' dec_valb_sub) with
+                    | DOk o -> DOk ((sel val' valb' dec_mask) :: o)
+                    | x -> x)
+              else dec_loop r val' valb'
+
+(** val base64_decode : z list -> dres **)
+
+let base64_decode cs =
+  if Z.ltb
+       (Z.div (Z.mul (Z.of_nat (length cs)) (Zpos (XI XH))) (Zpos (XO (XO
+         XH)))) (Z.of_nat (count_padding cs))
+  then DLengthError
+  else dec_loop cs dec_val0 dec_valb0
+
+(** val b64_alphabet : z list **)
+
+let b64_alphabet =
+  map Z.of_nat
+    (app
+      (seq (S (S (S (S (S (S (S (S (S (S (S (S (S (S (S (S (S (S (S (S (S (S
+        (S (S (S (S (S (S (S (S (S (S (S (S (S (S (S (S (S (S (S (S (S (S (S
+        (S (S (S (S (S (S (S (S (S (S (S (S (S (S (S (S (S (S (S (S
+        O))))))))))))))))))))))))))))))))))))))))))))))))))))))))))))))))) (S
+        (S (S (S (S (S (S (S (S (S (S (S (S (S (S (S (S (S (S (S (S (S (S (S
+        (S (S O)))))))))))))))))))))))))))
+      (app
+        (seq (S (S (S (S (S (S (S (S (S (S (S (S (S (S (S (S (S (S (S (S (S
+          (S (S (S (S (S (S (S (S (S (S (S (S (S (S (S (S (S (S (S (S (S (S
+          (S (S (S (S (S (S (S (S (S (S (S (S (S (S (S (S (S (S (S (S (S (S
+          (S (S (S (S (S (S (S (S (S (S (S (S (S (S (S (S (S (S (S (S (S (S
+          (S (S (S (S (S (S (S (S (S (S
+          O)))))))))))))))))))))))))))))))))))))))))))))))))))))))))))))))))))))))))))))))))))))))))))))))))
+          (S (S (S (S (S (S (S (S (S (S (S (S (S (S (S (S (S (S (S (S (S (S
+          (S (S (S (S O)))))))))))))))))))))))))))
+        (app
+          (seq (S (S (S (S (S (S (S (S (S (S (S (S (S (S (S (S (S (S (S (S (S
+            (S (S (S (S (S (S (S (S (S (S (S (S (S (S (S (S (S (S (S (S (S (S
+            (S (S (S (S (S O))))))))))))))))))))))))))))))))))))))))))))))))
+            (S (S (S (S (S (S (S (S (S (S O))))))))))) ((S (S (S (S (S (S (S
+          (S (S (S (S (S (S (S (S (S (S (S (S (S (S (S (S (S (S (S (S (S (S
+          (S (S (S (S (S (S (S (S (S (S (S (S (S (S
+          O))))))))))))))))))))))))))))))))))))))))))) :: ((S (S (S (S (S (S
+          (S (S (S (S (S (S (S (S (S (S (S (S (S (S (S (S (S (S (S (S (S (S
+          (S (S (S (S (S (S (S (S (S (S (S (S (S (S (S (S (S (S (S
+          O))))))))))))))))))))))))))))))))))))))))))))))) :: [])))))
+
+(** val alpha : z -> z **)
+
+let alpha i =
+  nth (Z.to_nat i) b64_alphabet Z0
+
+(** val rfc4648 : z list -> z list **)
+
+let rec rfc4648 = function
+| [] -> []
+| b0 :: l ->
+  (match l with
+   | [] ->
+     (alpha (Z.div b0 (Zpos (XO (XO XH))))) :: ((alpha
+                                                  (Z.mul
+                                                    (Z.modulo b0 (Zpos (XO
+                                                      (XO XH)))) (Zpos (XO
+                                                    (XO (XO (XO XH))))))) :: ((Zpos
+       (XI (XO (XI (XI (XI XH)))))) :: ((Zpos (XI (XO (XI (XI (XI
+       XH)))))) :: [])))
+   | b1 :: l0 ->
+     (match l0 with
+      | [] ->
+        (alpha (Z.div b0 (Zpos (XO (XO XH))))) :: ((alpha
+                                                     (Z.add
+                                                       (Z.mul
+                                                         (Z.modulo b0 (Zpos
+                                                           (XO (XO XH))))
+                                                         (Zpos (XO (XO (XO
+                                                         (XO XH))))))
+                                                       (Z.div b1 (Zpos (XO
+                                                         (XO (XO (XO XH)))))))) :: (
+          (alpha
+            (Z.mul (Z.modulo b1 (Zpos (XO (XO (XO (XO XH)))))) (Zpos (XO (XO
+              XH))))) :: ((Zpos (XI (XO (XI (XI (XI XH)))))) :: [])))
+      | b2 :: r ->
+        app
+          ((alpha (Z.div b0 (Zpos (XO (XO XH))))) :: ((alpha
+                                                        (Z.add
+                                                          (Z.mul
+                                                            (Z.modulo b0
+                                                              (Zpos (XO (XO
+                                                              XH)))) (Zpos
+                                                            (XO (XO (XO (XO
+                                                            XH))))))
+                                                          (Z.div b1 (Zpos (XO
+                                                            (XO (XO (XO
+                                                            XH)))))))) :: (
+          (alpha
+            (Z.add
+              (Z.mul (Z.modulo b1 (Zpos (XO (XO (XO (XO XH)))))) (Zpos (XO
+                (XO XH)))) (Z.div b2 (Zpos (XO (XO (XO (XO (XO (XO XH)))))))))) :: (
+          (alpha (Z.modulo b2 (Zpos (XO (XO (XO (XO (XO (XO XH))))))))) :: []))))
+          (rfc4648 r)))
+
+(** val strip_padding : z list -> z list **)
+
+let strip_padding cs =
+  rev (skipn (count_padding cs) (rev cs))
